@@ -227,6 +227,11 @@ inline void Sweep::unified_neighbours()
       xtw.emplace_back("declaration and redeclaration", P.vars[0], P.vars[4]);
       xtw.emplace_back("operations with the same operand", lex.make_address(*P.exprs[0]), lex.make_address(*P.exprs[0]));
       xtw.emplace_back("empty expression lists", lex.make_expr_list(), lex.make_expr_list());
+      {  impl::Warehouse<Type> w0, wi, wc; wi.push_back(L.int_type()); wc.push_back(L.char_type());          // types are expressions too
+         xtw.emplace_back("the empty sum and the empty product", &lex.get_sum(w0), &lex.get_product(w0));
+         xtw.emplace_back("one-element sums", &lex.get_sum(wi), &lex.get_sum(wc));
+         xtw.emplace_back("the empty sum and the false constant", &lex.get_sum(w0), &L.false_value());
+         xtw.emplace_back("built-in types", &L.int_type(), &L.long_type()); }
       for (auto& [what, x1, x2] : xtw) {
          if (x1 == x2) continue;
          for (const Expr* x : { x1, x2, x1 }) {
@@ -234,6 +239,9 @@ inline void Sweep::unified_neighbours()
             auto* ar = &lex.get_array(*ts[0], *x); add_node("get_array" + tag, ar, Category_code::Array, [ar, a = ts[0], x](Ck& c) { c.same("element_type", &ar->element_type(), a); c.same("bound", &ar->bound(), x); }, false);
             auto* at = &lex.get_as_type(*x); add_node("get_as_type" + tag, at, Category_code::As_type, [at, x](Ck& c) { c.same("expr", &at->expr(), x); }, false);
             auto* fn = &lex.get_function(src, *ts[1], *x); add_node("get_function(s,t,e)" + tag, fn, Category_code::Function, [fn, sp = &src, t = ts[1], x](Ck& c) { c.same("source", &fn->source(), sp); c.same("target", &fn->target(), t); c.same("throws", &fn->throws(), x); }, false);
+            {  auto& xj = lex.get_transfer(lex.get_linkage(u8"Java"), lex.get_calling_convention(u8""));
+               auto* f4 = &lex.get_function(src, *ts[1], *x, xj); add_node("get_function(s,t,e,xfer)" + tag, f4, Category_code::Function, [f4, sp = &src, t = ts[1], x, xp = &xj](Ck& c) { c.same("source", &f4->source(), sp); c.same("target", &f4->target(), t); c.same("throws", &f4->throws(), x); c.yes("transfer", f4->transfer() == *xp, "function type does not report its transfer"); }, false);
+               auto* f4n = &lex.get_function(src, *ts[1], *x, impl::cxx_transfer()); add_node("get_function(s,t,e,natural xfer)" + tag, f4n, Category_code::Function, [f4n, fn, x](Ck& c) { c.same("throws", &f4n->throws(), x); c.yes("identity", f4n == fn, "spelling out the natural transfer gave another node than omitting it", A_IDENTITY); }, false); }
             auto* al = lex.make_expr_list(); al->push_back(P.exprs[1]);
             auto* ti = &lex.get_template_id(*x, *al); add_node("get_template_id" + tag, ti, Category_code::Template_id, [ti, x](Ck& c) { c.same("template_name", &ti->template_name(), x); }, false);
             ++twin_requests;
